@@ -3,6 +3,7 @@ package main
 import (
 	"fmt"
 	"go/ast"
+	"go/printer"
 	"go/token"
 	"strings"
 )
@@ -342,6 +343,193 @@ func init() {
 			failShape("queueTargetAsync: guarded swap not found")
 		}
 
+		exprText := func(n ast.Node) string {
+			var sb strings.Builder
+			if err := printer.Fprint(&sb, token.NewFileSet(), n); err != nil {
+				failShape("cannot print a node: %v", err)
+			}
+			return sb.String()
+		}
+		// build.Build, the failure path after the errStop branch, in source order:
+		//   state.LogBuildError(...) ; if err := RemoveOutputs(target); err != nil {log} ; target.SetState(F) ; target.FinishBuild() ; return
+		var bfProg []string
+		for _, s := range bf.Body.List {
+			is, ok := s.(*ast.IfStmt)
+			if !ok || is.Init == nil || !strings.Contains(fmt.Sprint(is.Init.(*ast.AssignStmt).Rhs[0].(*ast.CallExpr).Fun), "buildTarget") {
+				continue
+			}
+			if len(is.Body.List) < 2 {
+				failShape("Build: failure branch too short")
+			}
+			if first, ok := is.Body.List[0].(*ast.IfStmt); !ok || !strings.Contains(exprText(first.Cond), "errStop") {
+				failShape("Build: failure branch does not start with the errStop test")
+			}
+			for i, b := range is.Body.List[1:] {
+				last := i == len(is.Body.List)-2
+				switch x := b.(type) {
+				case *ast.ReturnStmt:
+					if !last {
+						failShape("Build: return in the middle of the failure branch")
+					}
+				case *ast.IfStmt:
+					as, ok := x.Init.(*ast.AssignStmt)
+					if !ok || len(as.Rhs) != 1 || x.Else != nil {
+						failShape("Build: unexpected if in the failure branch")
+					}
+					c, ok := as.Rhs[0].(*ast.CallExpr)
+					if !ok || fmt.Sprint(c.Fun) != "RemoveOutputs" {
+						failShape("Build: unexpected if in the failure branch")
+					}
+					bfProg = append(bfProg, "BFRemoveOutputs")
+				case *ast.ExprStmt:
+					if _, ok := isCallTo(x.X, "LogBuildError"); ok {
+						bfProg = append(bfProg, "BFLog")
+					} else if _, ok := isCallTo(x.X, "SetState"); ok {
+						bfProg = append(bfProg, "BFSetState")
+					} else if c, ok := isCallTo(x.X, "FinishBuild"); ok && len(c.Args) == 0 {
+						bfProg = append(bfProg, "BFFinish")
+					} else {
+						failShape("Build: unexpected call in the failure branch")
+					}
+				default:
+					failShape("Build: unexpected statement in the failure branch")
+				}
+				if last {
+					if _, ok := b.(*ast.ReturnStmt); !ok {
+						failShape("Build: failure branch does not end with return")
+					}
+				}
+			}
+		}
+		count := func(xs []string, s string) int {
+			n := 0
+			for _, x := range xs {
+				if x == s {
+					n++
+				}
+			}
+			return n
+		}
+		if count(bfProg, "BFLog") != 1 || count(bfProg, "BFSetState") != 1 || count(bfProg, "BFFinish") != 1 || count(bfProg, "BFRemoveOutputs") > 1 {
+			failShape("Build: failure branch is not one LogBuildError, one SetState, one FinishBuild (got %v)", bfProg)
+		}
+
+		// waitOnChan: start := ...; t := time.NewTimer(...); defer t.Stop(); select { case <-ch: [return] ; case <-t.C: log [; return] } ; [<-ch]
+		wc := findFunc(st, "", "waitOnChan")
+		var wcProg []string
+		isRecvFrom := func(e ast.Expr, what string) bool {
+			ue, ok := e.(*ast.UnaryExpr)
+			return ok && ue.Op == token.ARROW && exprText(ue.X) == what
+		}
+		for _, s := range wc.Body.List {
+			switch x := s.(type) {
+			case *ast.AssignStmt, *ast.DeferStmt:
+				if len(wcProg) != 0 {
+					failShape("waitOnChan: set-up statement after the select")
+				}
+			case *ast.SelectStmt:
+				chRet, tmRet, seenCh, seenTm := "false", "false", false, false
+				for _, cc := range x.Body.List {
+					cl := cc.(*ast.CommClause)
+					es, ok := cl.Comm.(*ast.ExprStmt)
+					if !ok {
+						failShape("waitOnChan: a select case is not a bare receive")
+					}
+					returns := "false"
+					for i, bs := range cl.Body {
+						switch y := bs.(type) {
+						case *ast.ReturnStmt:
+							if i != len(cl.Body)-1 {
+								failShape("waitOnChan: return in the middle of a select case")
+							}
+							returns = "true"
+						case *ast.ExprStmt:
+							if !strings.HasPrefix(exprText(y.X), "log.") {
+								failShape("waitOnChan: a select case does something other than logging")
+							}
+						default:
+							failShape("waitOnChan: unexpected statement in a select case")
+						}
+					}
+					switch {
+					case isRecvFrom(es.X, "ch") && !seenCh:
+						seenCh, chRet = true, returns
+					case isRecvFrom(es.X, "t.C") && !seenTm:
+						seenTm, tmRet = true, returns
+					default:
+						failShape("waitOnChan: unknown select case")
+					}
+				}
+				if !seenCh || !seenTm {
+					failShape("waitOnChan: the select does not have the cases <-ch and <-t.C")
+				}
+				wcProg = append(wcProg, "WCSelect "+chRet+" "+tmRet)
+			case *ast.ExprStmt:
+				if !isRecvFrom(x.X, "ch") {
+					failShape("waitOnChan: unexpected statement")
+				}
+				wcProg = append(wcProg, "WCRecv")
+			default:
+				failShape("waitOnChan: unexpected statement")
+			}
+		}
+
+		// parse.checkSubrepo: sl := label.SubrepoLabel(state) ; if inSamePackage(X, dependent) { return nil, error } - which X?
+		_, ps := parseFile("src/parse/parse_step.go")
+		cs := findFunc(ps, "", "checkSubrepo")
+		guardArg, slDefined, guardReturnsErr := "", false, false
+		for _, s := range cs.Body.List {
+			if as, ok := s.(*ast.AssignStmt); ok && len(as.Lhs) == 1 && exprText(as.Lhs[0]) == "sl" {
+				if c, ok := isCallTo(as.Rhs[0], "SubrepoLabel"); !ok || exprText(c.Fun) != "label.SubrepoLabel" || guardArg != "" {
+					failShape("checkSubrepo: sl is not label.SubrepoLabel(state), or is assigned after the guard")
+				}
+				slDefined = true
+			}
+			is, ok := s.(*ast.IfStmt)
+			if !ok {
+				continue
+			}
+			c, ok := is.Cond.(*ast.CallExpr)
+			if !ok || exprText(c.Fun) != "inSamePackage" {
+				if strings.Contains(exprText(is.Cond), "inSamePackage") {
+					failShape("checkSubrepo: inSamePackage used in a condition of an unknown shape")
+				}
+				continue
+			}
+			if guardArg != "" || len(c.Args) != 2 || exprText(c.Args[1]) != "dependent" {
+				failShape("checkSubrepo: the lock-up guard is not a single inSamePackage(X, dependent)")
+			}
+			switch exprText(c.Args[0]) {
+			case "sl":
+				guardArg = "SGDefiner"
+			case "label":
+				guardArg = "SGLabel"
+			default:
+				failShape("checkSubrepo: unknown first argument of inSamePackage")
+			}
+			if len(is.Body.List) == 1 {
+				if r, ok := is.Body.List[0].(*ast.ReturnStmt); ok && len(r.Results) == 2 && exprText(r.Results[0]) == "nil" && strings.HasPrefix(exprText(r.Results[1]), "fmt.Errorf") {
+					guardReturnsErr = true
+				}
+			}
+		}
+		if guardArg == "" || !slDefined || !guardReturnsErr {
+			failShape("checkSubrepo: lock-up guard not found (sl defined: %v, guard: %q, returns an error: %v)", slDefined, guardArg, guardReturnsErr)
+		}
+		// inSamePackage(label, dependent): !dependent.IsOriginalTarget() && label.Subrepo == dependent.Subrepo && label.PackageName == dependent.PackageName
+		isp := findFunc(ps, "", "inSamePackage")
+		if len(isp.Body.List) != 1 {
+			failShape("inSamePackage: body is not a single return")
+		}
+		if r, ok := isp.Body.List[0].(*ast.ReturnStmt); !ok || len(r.Results) != 1 ||
+			exprText(r.Results[0]) != "!dependent.IsOriginalTarget() && label.Subrepo == dependent.Subrepo && label.PackageName == dependent.PackageName" {
+			failShape("inSamePackage: the comparison has changed")
+		}
+		// the package that is parsed next is sl's: maybeParseSubrepoPackage(state, sl.PackageName, sl.Subrepo, label, mode)
+		if !strings.Contains(exprText(cs.Body), "maybeParseSubrepoPackage(state, sl.PackageName, sl.Subrepo, label, mode)") {
+			failShape("checkSubrepo: the host-repo parse is not maybeParseSubrepoPackage(state, sl.PackageName, sl.Subrepo, label, mode)")
+		}
+
 		var b strings.Builder
 		b.WriteString("From Coq Require Import List NArith. Import ListNotations.\n")
 		b.WriteString("(* src/core/build_target.go: the BuildTargetState iota block, in declaration order *)\n")
@@ -371,6 +559,15 @@ func init() {
 		b.WriteString("(* logResult on a failure status, flattened in source order: LRStoreSpecific = buildFailed/testFailed.Store(true) (the switch),\n   LRStoreFailed = failed.Store(true), LRSend = internalResults <- result *)\n")
 		b.WriteString("Inductive lr_stmt := LRTime | LRStoreSpecific | LRStoreFailed | LRSend.\n")
 		b.WriteString("Definition logresult_prog : list lr_stmt := [" + strings.Join(lrProg, "; ") + "].\n")
+		b.WriteString("(* build.Build, the failure path (buildTarget returned an error other than errStop), in source order: BFLog = LogBuildError,\n   BFRemoveOutputs, BFSetState = target.SetState(build_fail_set), BFFinish = target.FinishBuild() (wakes every WaitForBuild) *)\n")
+		b.WriteString("Inductive bf_stmt := BFLog | BFRemoveOutputs | BFSetState | BFFinish.\n")
+		b.WriteString("Definition buildfail_prog : list bf_stmt := [" + strings.Join(bfProg, "; ") + "].\n")
+		b.WriteString("(* core.waitOnChan after its set-up: WCSelect a b = select { case <-ch: (return iff a) ; case <-t.C: log (return iff b) }, WCRecv = <-ch *)\n")
+		b.WriteString("Inductive wc_stmt := WCSelect (ch_returns timer_returns : bool) | WCRecv.\n")
+		b.WriteString("Definition waitonchan_prog : list wc_stmt := [" + strings.Join(wcProg, "; ") + "].\n")
+		b.WriteString("(* parse.checkSubrepo: the lock-up guard inSamePackage(X, dependent): X = sl, the label of the target expected to define the\n   subrepo (SGDefiner), or X = label, the label inside the subrepo (SGLabel); the package parsed next is sl's *)\n")
+		b.WriteString("Inductive sg_arg := SGDefiner | SGLabel.\n")
+		b.WriteString("Definition subrepo_guard_arg : sg_arg := " + guardArg + ".\n")
 		return b.String()
 	}
 }
